@@ -59,6 +59,10 @@ def scenarios(quick):
             out.append({'fam': 'D', 'I': 1, 's0': 0.0, 'script': sc, 'I2': I2, 'bound': 1 if quick else 2})
         out.append({'fam': 'D', 'I': 1, 's0': 0.0, 'script': ((0.0, 1, 'none'),), 'I2': I2, 'script2': ((0.0, 1, 'raise'),),
                     'bound': 1})
+    # the named callback is redefined by the program between ticks (before the n-th dispatch; n = 1: before the first tick)
+    for I in (1, 2):
+        for when in ((1,), (2,), (1, 2), (1, 3)):
+            out.append({'fam': 'E', 'I': I, 's0': 0.0, 'script': ((0.0, 1, 'none'),) * 3, 'extredef': when, 'bound': 1})
     # a callback whose result has no truth value (a list of two elements) fails like a raising one
     for I in (1, 2):
         for sc in (((0.0, 1, 'retlist'),), ((0.0, 1, 'none'), (0.0, 1, 'retlist'))):
@@ -202,6 +206,7 @@ class Run:
             need = max(len(sc['script']), len(sc.get('script2', ()))) + 3
             steps = 0
             batch = 0
+            extredef = set(sc.get('extredef', ()))
             while steps < 60:
                 steps += 1
                 if loop._ready:
@@ -216,6 +221,13 @@ class Run:
                     which = '?'
                 if dispatches >= need:
                     break
+                if dispatches + 1 in extredef:
+                    extredef.discard(dispatches + 1)
+                    m = self.models['t']
+                    nv = 'v2' if m.version == 'v1' else 'v1'
+                    kl('cb::{tick%s()}' % ('2' if nv == 'v2' else ''))
+                    m.version = nv
+                    self.log.append(('ext-redefine', nv))
                 if ext and ext[1] == 'pre' and dispatches + 1 == ext[0]:
                     self.external_cancel()
                     ext = None
@@ -325,6 +337,8 @@ def describe(sc):
         s += ' callback passed under its second name (al::cb; .timer(..;al); redefinitions go to al)'
     if 'ext' in sc:
         s += ' ext-cancel=%s#%d' % (sc['ext'][1], sc['ext'][0])
+    if 'extredef' in sc:
+        s += ' cb redefined by the program before dispatch %s' % ','.join('#%d' % n for n in sc['extredef'])
     if 'I2' in sc:
         s += ' second-timer I=%d' % sc['I2']
         if 'script2' in sc:
